@@ -22,17 +22,16 @@ struct WorkExceeded {
 };
 
 template <class W>
-struct CountingWeighted {
-    const W *g;
+struct CountingWeighted : W {
+    // a copy of the graph whose getOutNeighbours counts the neighbourhood scans; the rest of the public interface is inherited
     mutable size_t scans = 0;
     size_t cap = (size_t)-1;
-    size_t getSize() const { return g->getSize(); }
+    explicit CountingWeighted(const W &g) : W(g) {}
     const Successors &getOutNeighbours(VertexIndex v) const {
         if (++scans > cap)
             throw WorkExceeded{scans};
-        return g->getOutNeighbours(v);
+        return W::getOutNeighbours(v);
     }
-    EdgeWeight getEdgeWeight(VertexIndex i, VertexIndex j) const { return g->getEdgeWeight(i, j); }
 };
 
 uint64_t g_digest = 0;
@@ -87,8 +86,7 @@ std::string checkSource(const G &g, const Model &m, const WRef &r, unsigned s, b
     size_t V = m.n, E = 0;
     for (unsigned v = 0; v < V; ++v)
         E += g.getOutNeighbours(v).size();
-    CountingWeighted<G> cg;
-    cg.g = &g;
+    CountingWeighted<G> cg(g);
     // C19: the stated bound; C12: a generous budget that turns a runaway search into a failure
     cg.cap = workProp ? V + E + 1 : 100 * (V + E + 1);
     std::pair<std::vector<EdgeWeight>, std::vector<VertexIndex>> res;
@@ -237,8 +235,7 @@ std::string checkAfterManyCalls(const G &g, const Model &m, const WRef &r, long 
                 other = u;
         if (other < 0)
             continue;
-        CountingWeighted<G> cg, cu;
-        cg.g = cu.g = &g;
+        CountingWeighted<G> cg(g), cu(g);
         auto before = algorithms::findGeodesicsDijkstra(g, s);
         auto beforeW = algorithms::findGeodesicsDijkstra(cg, s);
         for (long long i = 1; i < d; ++i) {
@@ -388,6 +385,16 @@ void runInner(const Case &c, verif_result *out) {
                 if (e.remove) {
                     g.removeEdge(e.i, e.j);
                     m.e.erase(k);
+                    continue;
+                }
+                if (e.set) {
+                    g.setEdgeWeight(e.i, e.j, w);
+                    if (!m.e.count(k)) {
+                        MVal v;
+                        v.copies = 1;
+                        m.e[k] = v;
+                    }
+                    m.e[k].w = w;
                     continue;
                 }
                 g.addEdge(e.i, e.j, w);
